@@ -209,11 +209,23 @@ def scenarios(draw, cfg):
     return {"root": rootname, "tree": tree, "steps": steps}
 
 
+def top_names_used(scn):
+    """top-level names that the tree or any step of the scenario refers to (extras planted afterwards must avoid them)"""
+    used = set(scn["tree"])
+    for st_ in scn["steps"]:
+        for k in ("path", "src", "dst", "root"):
+            if st_.get(k):
+                used.add(st_[k].split("/")[0])
+        for x in st_.get("sf", ()) or ():
+            used.add(x.split("/")[0])
+    return used
+
+
 @st.composite
 def scenarios_deep(draw, cfg):
     """scenarios(cfg), in a third of the cases with a chain of nested histories (depth 2-4) planted first"""
     scn = draw(scenarios(cfg))
-    if draw(st.integers(0, 2)) == 0 and "d1" not in scn["tree"]:
+    if draw(st.integers(0, 2)) == 0 and "d1" not in top_names_used(scn):
         scn["tree"]["d1"] = {"d2": {"d3": {"d4": {"leaf.txt": "x"}, "f3.txt": "y"}, "f2.txt": "z"}, "f1.txt": "w"}
         chain = ["d1", "d1/d2", "d1/d2/d3", "d1/d2/d3/d4"]
         picks = draw(st.lists(st.sampled_from(chain), min_size=2, max_size=4, unique=True))
